@@ -747,8 +747,9 @@ func r116(c *an.Ctx) {
 // append(opts, more) inside f writes the element behind len(shared) whenever the caller's slice has spare capacity: two
 // goroutines calling f with one shared option list write the same array slot. No function of the module appends onto
 // its own variadic parameter; it copies first (append([]T{}, opts...), a three-index slice) or builds a new list.
-func r117(c *an.Ctx) {
-	const rule = "R11.7"
+func r117(c *an.Ctx) { r117as(c, "R11.7") }
+
+func r117as(c *an.Ctx, rule string) {
 	n := 0
 	for _, fn := range c.Prog.FuncsIn("") {
 		if c.Prog.IsGenerated(fn.Pos()) || !fn.Signature.Variadic() || len(fn.Params) == 0 || fn.Synthetic != "" {
